@@ -41,7 +41,7 @@ class C10(TreeCheck):
             return None
         m = case["meta"]
         rs = tuple(tuple(o["call"]["a"]["resize"]) for o in ops)[:4]
-        return (rs, m.get("kw", {}).get("timeout"), m.get("mode"), m.get("fn"), F.outcome)
+        return (rs, m.get("family"), m.get("kw", {}).get("timeout"), m.get("mode"), m.get("fn"), F.outcome)
 
 
 def main(tier):
